@@ -98,19 +98,19 @@ theorem signer_ne_empty (E : C01.Env) (hdid : ∀ u, E.didOfURL u ≠ some "") (
 theorem mergeClaims_single (c : C02.Claims) : C02.mergeClaims [c] [] = .ok c := by
   simp [C02.mergeClaims]
 
-theorem s2sOf_vps (x : Ctx) (rw : C11.World) (r : Req) : (s2sOf x rw r).vps = r.vps.map (fun p => vpOf x rw p.1 p.2) := rfl
-theorem s2sOf_scope (x : Ctx) (rw : C11.World) (r : Req) : (s2sOf x rw r).scope = r.wire.scope := rfl
-theorem s2sOf_subDefId (x : Ctx) (rw : C11.World) (r : Req) : (s2sOf x rw r).subDefId = r.wire.subDefId := rfl
+theorem s2sOf_vps (x : Ctx) (rw : C11.World) (t : Nat) (r : Req) : (s2sOf x rw t r).vps = r.vps.map (fun p => vpOf x rw t p.1 p.2) := rfl
+theorem s2sOf_scope (x : Ctx) (rw : C11.World) (t : Nat) (r : Req) : (s2sOf x rw t r).scope = r.wire.scope := rfl
+theorem s2sOf_subDefId (x : Ctx) (rw : C11.World) (t : Nat) (r : Req) : (s2sOf x rw t r).subDefId = r.wire.subDefId := rfl
 
-theorem s2sOf_wf (x : Ctx) (rw : C11.World) (r : Req) (hdid : ∀ u, x.base.didOfURL u ≠ some "") :
-    ∀ vp ∈ (s2sOf x rw r).vps, vp.signer ≠ some "" := by
+theorem s2sOf_wf (x : Ctx) (rw : C11.World) (t : Nat) (r : Req) (hdid : ∀ u, x.base.didOfURL u ≠ some "") :
+    ∀ vp ∈ (s2sOf x rw t r).vps, vp.signer ≠ some "" := by
   intro vp hvp
   rw [s2sOf_vps] at hvp
   obtain ⟨p, _, rfl⟩ := List.mem_map.mp hvp
-  exact signer_ne_empty (x.env rw) hdid p.1
+  exact signer_ne_empty (x.env rw t) hdid p.1
 
-theorem vpVerifies_accepts {x : Ctx} {rw : C11.World} {cfg2 : C02.Cfg} {now : Nat} {vp : C01.Pres} {wire : C02.VP}
-    (h : C02.vpVerifies cfg2 now (vpOf x rw vp wire) = true) : accepts x rw vp = true := by
+theorem vpVerifies_accepts {x : Ctx} {rw : C11.World} {t : Nat} {cfg2 : C02.Cfg} {now : Nat} {vp : C01.Pres} {wire : C02.VP}
+    (h : C02.vpVerifies cfg2 now (vpOf x rw t vp wire) = true) : accepts x rw t vp = true := by
   unfold C02.vpVerifies at h
   simp only [Bool.and_eq_true] at h
   exact h.1
@@ -118,19 +118,19 @@ theorem vpVerifies_accepts {x : Ctx} {rw : C11.World} {cfg2 : C02.Cfg} {now : Na
 /-- the composed 200: C02's `s2s_token_only_if` (`issueS2S_ok`) read back through the maps -/
 theorem issue_ok (x : Ctx) (cfg2 : C02.Cfg) (rw : C11.World) (w w' : C02.World) (now : Nat) (r : Req) (resp : C02.TokenResponse)
     (hchk : cfg2.emptyVpChecked = true) (httl : cfg2.nonceTtl ≠ 0) (hdid : ∀ u, x.base.didOfURL u ≠ some "")
-    (h : C02.issueS2S cfg2 w now (s2sOf x rw r) = (w', .ok resp)) :
-    (∀ p ∈ r.vps, accepts x rw p.1 = true) ∧
+    (h : C02.issueS2S cfg2 w now (s2sOf x rw now r) = (w', .ok resp)) :
+    (∀ p ∈ r.vps, accepts x rw now p.1 = true) ∧
     ∃ defs d vals dpop, cfg2.definitions r.wire.scope = some defs ∧ C02.findDef defs r.wire.subDefId = some d ∧
-      fieldsOf x rw r.pres r.sub d.key = .ok vals ∧
+      fieldsOf x rw now r.pres r.sub d.key = .ok vals ∧
       resp.token = C02.tokName w.nextTok ∧ w'.nextTok = w.nextTok + 1 ∧
       w'.tokens = w.tokens.put now cfg2.tokenTtl (C02.tokName w.nextTok)
         { issuer := cfg2.issuerURL r.wire.subject, clientId := r.wire.clientId, scope := r.wire.scope, issuedAt := now,
           expiration := now + cfg2.tokenValidity, dpop := dpop, claims := x.g.render vals, defs := defs,
           submissions := [r.wire.subDefId], vps := r.vps.length } := by
-  obtain ⟨s, d, hc, he⟩ := C02.issueS2S_ok cfg2 w w' now _ resp hchk httl (s2sOf_wf x rw r hdid) h
+  obtain ⟨s, d, hc, he⟩ := C02.issueS2S_ok cfg2 w w' now _ resp hchk httl (s2sOf_wf x rw now r hdid) h
   refine ⟨?_, ?_⟩
   · intro p hp
-    have := hc.verified (vpOf x rw p.1 p.2) (by rw [s2sOf_vps]; exact List.mem_map.mpr ⟨p, hp, rfl⟩)
+    have := hc.verified (vpOf x rw now p.1 p.2) (by rw [s2sOf_vps]; exact List.mem_map.mpr ⟨p, hp, rfl⟩)
     exact vpVerifies_accepts this
   · obtain ⟨defs, hdefs, hfind⟩ := hc.scope
     obtain ⟨defs', claims, dpop, hdefs', hmerge, _, hrec⟩ := he.record
@@ -139,13 +139,13 @@ theorem issue_ok (x : Ctx) (cfg2 : C02.Cfg) (rw : C11.World) (w w' : C02.World) 
     rw [s2sOf_subDefId] at hfind
     rw [hdefs] at hdefs'
     cases hdefs'
-    have hpex' : (fieldsOf x rw r.pres r.sub d.key).isOk = true := hpex
-    cases hf : fieldsOf x rw r.pres r.sub d.key with
+    have hpex' : (fieldsOf x rw now r.pres r.sub d.key).isOk = true := hpex
+    cases hf : fieldsOf x rw now r.pres r.sub d.key with
     | err e => rw [hf] at hpex'; cases hpex'
     | panic e => rw [hf] at hpex'; cases hpex'
     | ok vals =>
-      have hcl : (s2sOf x rw r).claims d.key = x.g.render vals := by
-        show (match fieldsOf x rw r.pres r.sub d.key with | .ok vals => x.g.render vals | _ => []) = _
+      have hcl : (s2sOf x rw now r).claims d.key = x.g.render vals := by
+        show (match fieldsOf x rw now r.pres r.sub d.key with | .ok vals => x.g.render vals | _ => []) = _
         rw [hf]
       rw [hcl, mergeClaims_single] at hmerge
       cases hmerge
@@ -206,7 +206,7 @@ theorem trace_wf (x : Ctx) (cfg2 : C02.Cfg) (hdid : ∀ u, x.base.didOfURL u ≠
     | req t' r' =>
       simp only [trace, opOf, List.mem_cons, Prod.mk.injEq, C02.Op.s2s.injEq] at h
       rcases h with ⟨_, rfl⟩ | h
-      · exact s2sOf_wf x s.rw r' hdid
+      · exact s2sOf_wf x s.rw t' r' hdid
       · exact ih _ t r h
 
 
@@ -259,7 +259,7 @@ theorem put_inj {α} (s : C02.Store α) (now ttl : Nat) (k : String) (v v' : α)
 theorem trace_split (x : Ctx) (cfg2 : C02.Cfg) : ∀ (evs : List Ev) (s : St) (pre' post' : List (Nat × C02.Op)) (t : Nat) (op : C02.Op),
     trace x cfg2 s evs = pre' ++ (t, op) :: post' →
     ∃ pre r post, evs = pre ++ Ev.req t r :: post ∧ trace x cfg2 s pre = pre' ∧
-      op = .s2s (s2sOf x (runEv x cfg2 s pre).rw r) := by
+      op = .s2s (s2sOf x (runEv x cfg2 s pre).rw t r) := by
   intro evs
   induction evs with
   | nil => intro s pre' post' t op h; simp [trace] at h
@@ -291,16 +291,16 @@ theorem isOk_unit {r : Res Unit} (h : r.isOk = true) : r = .ok () := by
   | err e => cases h
   | panic e => cases h
 
-theorem accepts_iff (x : Ctx) (rw : C11.World) (vp : C01.Pres) :
-    accepts x rw vp = true ↔ C01.verifyVP x.cfg1 x.P (x.env rw) true true none vp = .ok () := by
+theorem accepts_iff (x : Ctx) (rw : C11.World) (t : Nat) (vp : C01.Pres) :
+    accepts x rw t vp = true ↔ C01.verifyVP x.cfg1 x.P (x.env rw t) true true none vp = .ok () := by
   unfold accepts
   constructor
   · exact isOk_unit
   · intro h; rw [h]; rfl
 
-theorem fieldsOf_ok {x : Ctx} {rw : C11.World} {vps : List C01.Pres} {sub : List C12.Mapping} {k : Nat} {vals : C12.Values}
-    (h : fieldsOf x rw vps sub k = .ok vals) :
-    ∃ m cm, C12.validate x.cfg12 x.re x.decode (x.g.pdOf k) (envelopeOf x rw vps) sub = .ok m ∧
+theorem fieldsOf_ok {x : Ctx} {rw : C11.World} {t : Nat} {vps : List C01.Pres} {sub : List C12.Mapping} {k : Nat} {vals : C12.Values}
+    (h : fieldsOf x rw t vps sub k = .ok vals) :
+    ∃ m cm, C12.validate x.cfg12 x.re x.decode (x.g.pdOf k) (envelopeOf x rw t vps) sub = .ok m ∧
       C12.resolve x.cfg12 x.decode (x.g.envJ vps) [] sub = .ok cm ∧
       C12.resolveFields x.cfg12 x.re (x.g.pdOf k) [] cm = .ok vals := by
   unfold fieldsOf at h
@@ -315,23 +315,23 @@ theorem fieldsOf_ok {x : Ctx} {rw : C11.World} {vps : List C01.Pres} {sub : List
   · cases h
 
 /-- what the composed request established when C02 answers 200 -/
-def Established (x : Ctx) (cfg2 : C02.Cfg) (rw : C11.World) (r : Req) (claims : C02.Claims) : Prop :=
-  (∀ p ∈ r.vps, C01.verifyVP x.cfg1 x.P (x.env rw) true true none p.1 = .ok ()) ∧
+def Established (x : Ctx) (cfg2 : C02.Cfg) (rw : C11.World) (t : Nat) (r : Req) (claims : C02.Claims) : Prop :=
+  (∀ p ∈ r.vps, C01.verifyVP x.cfg1 x.P (x.env rw t) true true none p.1 = .ok ()) ∧
   ∃ defs d m cm vals, cfg2.definitions r.wire.scope = some defs ∧ C02.findDef defs r.wire.subDefId = some d ∧
-    C12.validate x.cfg12 x.re x.decode (x.g.pdOf d.key) (envelopeOf x rw r.pres) r.sub = .ok m ∧
+    C12.validate x.cfg12 x.re x.decode (x.g.pdOf d.key) (envelopeOf x rw t r.pres) r.sub = .ok m ∧
     C12.resolve x.cfg12 x.decode (x.g.envJ r.pres) [] r.sub = .ok cm ∧
     C12.resolveFields x.cfg12 x.re (x.g.pdOf d.key) [] cm = .ok vals ∧
     claims = x.g.render vals
 
 theorem issue_established (x : Ctx) (cfg2 : C02.Cfg) (rw : C11.World) (w w' : C02.World) (now : Nat) (r : Req) (resp : C02.TokenResponse)
     (hchk : cfg2.emptyVpChecked = true) (httl : cfg2.nonceTtl ≠ 0) (hdid : ∀ u, x.base.didOfURL u ≠ some "")
-    (h : C02.issueS2S cfg2 w now (s2sOf x rw r) = (w', .ok resp)) :
-    ∃ rec : C02.TokenRec, Established x cfg2 rw r rec.claims ∧ resp.token = C02.tokName w.nextTok ∧ w'.nextTok = w.nextTok + 1 ∧
+    (h : C02.issueS2S cfg2 w now (s2sOf x rw now r) = (w', .ok resp)) :
+    ∃ rec : C02.TokenRec, Established x cfg2 rw now r rec.claims ∧ resp.token = C02.tokName w.nextTok ∧ w'.nextTok = w.nextTok + 1 ∧
       w'.tokens = w.tokens.put now cfg2.tokenTtl (C02.tokName w.nextTok) rec ∧ rec.issuedAt = now ∧
       rec.expiration = now + cfg2.tokenValidity := by
   obtain ⟨hacc, defs, d, vals, dpop, hd, hf, hfo, htok, hnext, hrec⟩ := issue_ok x cfg2 rw w w' now r resp hchk httl hdid h
   obtain ⟨m, cm, hm, hcm, hv⟩ := fieldsOf_ok hfo
-  exact ⟨_, ⟨fun p hp => (accepts_iff x rw p.1).mp (hacc p hp), defs, d, m, cm, vals, hd, hf, hm, hcm, hv, rfl⟩, htok, hnext, hrec, rfl, rfl⟩
+  exact ⟨_, ⟨fun p hp => (accepts_iff x rw now p.1).mp (hacc p hp), defs, d, m, cm, vals, hd, hf, hm, hcm, hv, rfl⟩, htok, hnext, hrec, rfl, rfl⟩
 
 
 end Nuts.Compose.Cred
